@@ -563,6 +563,7 @@ package termincommittee
 //@     invariant [senders] len(senders) == len(confirmations) && (forall k :: 0 <= k && k < $i ==> senders[k] == confirmations[k].Sender().MemberId())
 //@   loop range confirmations
 //@     invariant [set] set != nil && (forall x Str :: set[x] == (exists k :: 0 <= k && k < $i && content(confirmations[k].Sender().MemberId()) == x))
+//@     invariant [set-size] len(set) == $i && (forall x Str :: has(set, x) ==> set[x])
 //@     invariant [height] forall k :: 0 <= k && k < $i ==> confirmations[k].SignedHeader().BlockHeight() == targetBlockHeight
 //@     invariant [view] forall k :: 0 <= k && k < $i ==> confirmations[k].SignedHeader().View() == targetView
 //@     invariant [distinct] forall j, k :: 0 <= j && j < k && k < $i ==> confirmations[j].Sender().MemberId() != confirmations[k].Sender().MemberId()
